@@ -103,11 +103,18 @@ CLAIMS = {
              "1772 law instances): permutation, label encoder, multi-variable construction, fp corner cases of the discrete clip, numpy scalars.",
              NOTE_VC + "Permutation / LabelEncoder and the constructors of the multi-variables are outside the VC subset (numpy idioms, "
              "pydantic construction): bounded only.", TECH_VC + "; " + TECH_BND),
-    "C14": C("Proved: Task.correct_solution has one coordinate per dimension and acts coordinate-wise with the owning flattened variable "
-             "(against the abstract Variable contract), initial_solution, solve. Bounded (law campaign over 30 variable mixes incl. size-1 "
-             "multi-variables and single permutations): dimension, flattening order, get_bounds, empty_solution, transform_solution.",
-             NOTE_VC + "get_variables / empty_solution / get_bounds / transform_solution use flattening comprehensions and dynamic return shapes "
-             "outside the VC subset: assumed contracts, checked by the bounded campaign.", TECH_VC + "; " + TECH_BND),
+    "C14": C("Proved: Task.__init__ sets space_dimension to the sum of the variables' sizes and keeps the variables in order; "
+             "get_variables returns exactly one flattened variable per coordinate, in declaration order (flat(task, i) = the child that owns "
+             "coordinate i, by prefix sums of the sizes); get_bounds returns one lower / upper entry per coordinate, each the bound its "
+             "declared variable gives to that coordinate; empty_solution has one in-domain, non-NaN coordinate per dimension; "
+             "correct_solution has one coordinate per dimension and acts coordinate-wise with the owning flattened variable; "
+             "initial_solution, solve. All against the abstract Variable contract (size / has_children / get / randomize / get_bounds / "
+             "correct). Bounded (law campaign over 30 variable mixes incl. size-1 multi-variables and single permutations): the seven "
+             "classes refine that abstract contract, lower <= upper, transform_solution.",
+             NOTE_VC + "Object invariant of Task / Variable (task_wf, var_wf: the variable list and the children are the ones built by the "
+             "constructors) is assumed at entry of the Task methods: the constructor part about space_dimension is proved, the package "
+             "never writes these fields (EFF FRAME-cfg). Prefix-sum / segment lemmas are axioms (proved in lemmas/L2.lean). "
+             "transform_solution builds a dict with run-time keys: outside the VC subset, bounded only.", TECH_VC + "; " + TECH_BND),
     "C15": C("Proved: optimize()'s loop invariant keeps every recorded generation (history-ok, history-owns-its-lists): the Population constructor "
              "owns a fresh list, hooks may only rebind the population; EFF FRAME-view / FRAME-book / POP-own on all 84 classes (no view field "
              "of an existing agent is ever written, no position list mutated through an alias). Proved: agent_trend / agent_position / "
